@@ -14,6 +14,7 @@ log files in every combination.
 """
 import codecs
 import os
+import time
 
 from hypothesis import strategies as st
 
@@ -43,7 +44,7 @@ CONTROL_TABLE = {'@': 0, '`': 0, '[': 27, '{': 27, '\\': 28, '|': 28, ']': 29, '
 
 def shards(tier):
     q = tier == 'quick'
-    return [{'kind': 'hist', 'n': 150 if q else 2500, 'big': not q} for _ in range(16)]
+    return [{'kind': 'hist', 'n': 300 if q else 2500, 'big': not q} for _ in range(16)]
 
 
 def payloads(text_mode, enc, big):
@@ -93,6 +94,11 @@ def histories(draw, big=False, want_logs=False, transports=('pty', 'pty', 'fd', 
             op = ['read', text, draw(st.sampled_from(['expect', 'rnb'])), draw(st.integers(0, 2)) == 0]
         else:
             op = ['send', draw(P)]
+        if transport == 'pty' and not text_mode and not want_logs and draw(st.integers(0, 9)) == 0:
+            # a payload far larger than the terminal queues, sent while signals arrive at the sending thread
+            # and the peer is stopped now and then: os.write comes back short, send() reports how much went
+            # out and the caller carries on from there (the documented contract of send())
+            op = ['send_storm', draw(st.sampled_from([150000, 400000]))]
         # keep big payloads rare: they dominate the run time
         sz = sum(len(x) for x in (op[1] if op[0] == 'writelines' else [op[1]])) if op[0] in ('send', 'sendline', 'write', 'writelines') else 0
         if sz > 60000:
@@ -157,6 +163,59 @@ class Model(object):
         return b, text
 
 
+def storm_payload(n):
+    return bytes(((i * 131 + (i >> 8) * 17 + 7) % 251) for i in range(n))
+
+
+class Storm(object):
+    """While active: SIGUSR1 (no-op handler) at the calling thread every millisecond, and the peer process
+    stopped for 15 ms out of every 30, so that writes to it block and are interrupted part-way."""
+
+    def __init__(self, pid):
+        self.pid = pid
+
+    def __enter__(self):
+        import signal
+        import threading
+        self.signal = signal
+        self.saved = signal.signal(signal.SIGUSR1, lambda *a: None)
+        self.stop = threading.Event()
+        target = threading.get_ident()
+
+        def run():
+            k = 0
+            stopped = False
+            while not self.stop.is_set():
+                try:
+                    signal.pthread_kill(target, signal.SIGUSR1)
+                except Exception:
+                    break
+                k += 1
+                if k % 15 == 0:
+                    try:
+                        os.kill(self.pid, signal.SIGCONT if stopped else signal.SIGSTOP)
+                        stopped = not stopped
+                    except OSError:
+                        pass
+                time.sleep(0.001)
+            try:
+                os.kill(self.pid, signal.SIGCONT)
+            except OSError:
+                pass
+        self.th = threading.Thread(target=run, daemon=True)
+        self.th.start()
+        return self
+
+    def __exit__(self, *a):
+        self.stop.set()
+        self.th.join(2)
+        try:
+            os.kill(self.pid, self.signal.SIGCONT)
+        except OSError:
+            pass
+        self.signal.signal(self.signal.SIGUSR1, self.saved)
+
+
 def control_byte(name):
     ch = name.lower()
     a = ord(ch) if len(ch) == 1 else -1
@@ -200,6 +259,7 @@ def run_history(case, logs=None):
             setattr(child, name, reclogs[name])
         k = 0
         returns = []
+        short_writes = [0]
         for i, op in enumerate(case['ops']):
             kind = op[0]
             where = 'op %d %s on %s (%s)' % (i, kind, case['transport'], enc or 'bytes')
@@ -232,6 +292,19 @@ def run_history(case, logs=None):
                         mo.control(byte)
                         if got != 1:
                             raise Violation('return-value', '%s(%r) returned %r, one byte is written' % (where, op[1], got))
+                elif kind == 'send_storm':
+                    data = storm_payload(op[1])
+                    mo.send(data)
+                    rest = data
+                    calls = 0
+                    with Storm(child.pid):
+                        while rest:
+                            n = child.send(rest)
+                            calls += 1
+                            if not isinstance(n, int) or n <= 0 or n > len(rest) or calls > 100000:
+                                raise Violation('return-value', '%s: send() of %d bytes returned %r' % (where, len(rest), n))
+                            rest = rest[n:]
+                    short_writes[0] += calls - 1
                 elif kind == 'sendeof':
                     mo.control(b'\x04')
                     child.sendeof()
@@ -259,7 +332,7 @@ def run_history(case, logs=None):
         for n in reclogs:
             setattr(child, n, None)
         received = sess.finish()
-        return {'received': received, 'model': mo, 'returns': returns, 'logs': snap}
+        return {'received': received, 'model': mo, 'returns': returns, 'logs': snap, 'short_writes': short_writes[0]}
     finally:
         sess.close()
 
@@ -303,7 +376,7 @@ def check_case(case, col=None):
                     nonascii = True
             elif any(ord(c) > 127 for c in p):
                 nonascii = True
-    nt = (len(sends) >= 3 and nonascii) or bigp or (ctl_between and len(sends) >= 3)
+    nt = (len(sends) >= 3 and nonascii) or bigp or (ctl_between and len(sends) >= 3) or res.get('short_writes', 0) > 0
     if col is not None:
         col.label('transport=' + case['transport'])
         col.label('mode=' + (case['enc'] or 'bytes'))
@@ -311,6 +384,9 @@ def check_case(case, col=None):
             col.label('payload>64KB')
         if ctl_between:
             col.label('control-between-sends')
+        if any(op[0] == 'send_storm' for op in case['ops']):
+            col.label('send-under-signals')
+            col.count('short_writes_observed', res.get('short_writes', 0))
         col.case(case, nt)
 
 
